@@ -1065,6 +1065,23 @@ def traceback_probe(position, source, lead):
         elif source == "module-file-reload":
             Template(filename=fn, module_directory=real_mods)
             t = Template(filename=fn, module_directory=real_mods)
+        elif source == "module-file-after-edit":
+            # the dev-server loop: an earlier version of the file fails (its error is formatted), the file is edited so that
+            # everything moves down, and the new version is loaded into the same module directory in the same process
+            with open(fn, "w") as f:
+                f.write("\n".join(lines + ["end"]) + "\n")
+            old = os.stat(fn).st_mtime
+            os.utime(fn, (old - 100, old - 100))
+            try:
+                Template(filename=fn, module_directory=real_mods).render(boom=boom)
+            except Boom:
+                exceptions.RichTraceback()
+                exceptions.text_error_template().render()
+            with open(fn, "w") as f:
+                f.write(text + "one more line\n" * 3)
+            import time
+            os.utime(fn, (time.time() + 5, time.time() + 5))       # whole seconds later than the module file
+            t = Template(filename=fn, module_directory=real_mods)
         elif source == "module-directory-through-symlink":
             t = Template(filename=fn, module_directory=os.path.join(link, "modules"))
         elif source == "lookup-through-symlink":
